@@ -5,13 +5,13 @@ from lib import gen, sysrun
 from lib.sysrun import Case
 
 LEVEL = "proof"
-CHECKER = "lake build KalignModel.Props.C07Opt && lake env lean KalignModel/Audit/C07.lean"
+CHECKER = "lake build KalignModel.Props.C07Prof && lake env lean KalignModel/Audit/C07.lean"
 NEG1 = "bf800000"
 
 
 def theorems():
     out = []
-    for f in ("C07.theorems", "C07Opt.theorems"):
+    for f in ("C07.theorems", "C07Opt.theorems", "C07Prof.theorems"):
         p = os.path.join(C.LEAN, "KalignModel", "Props", f)
         if os.path.exists(p):
             out += [l.strip() for l in open(p) if l.strip() and not l.startswith("#")]
@@ -113,7 +113,7 @@ def run(ctx):
                         "pairs (substitutions, internal indels, overhangs), all types and user penalties, lengths on both sides of 500, groups of 1..3 identical copies per side; only "
                         "pairs whose optimum is certified by the reference DP are compared; non-trivial = distinct certified cases whose optimum contains a gap")
     thms = theorems()
-    ok = C.lean_obligations(ctx, "C07", thms, module="C07Opt") if thms else False
+    ok = C.lean_obligations(ctx, "C07", thms, module="C07Prof") if thms else False
     if not thms:
         ctx.obligations.append(dict(name="Props/C07 theorems", ok=False, why="theorem list missing"))
     kvh = C.build_harness("asan")
@@ -151,7 +151,16 @@ def run(ctx):
                 a, b = b, a
             ka, kb = rng.choice([(1, 2), (2, 1), (1, 3), (3, 1)])
             pens = [-1, -1, -1]
-        todo.append(dict(kind=kind, a=a, b=b, t=t, pens=pens, ka=ka, kb=kb, bt=0 if kind == "protein" else 1))
+        threads = rng.choice([1, 4])
+        if i < (24 if ctx.quick else 160):
+            # dedicated stream for the task-parallel controller (>= 500 columns on the shorter side, several threads): every kernel family,
+            # in particular group-vs-group merges, whose two halves run as OpenMP tasks that the meetup must wait for
+            n = rng.choice([510, 560, 700])
+            a, b = planted_pair(rng, kind, n)
+            ka, kb = rng.choice([(2, 2), (2, 2), (3, 2), (2, 3), (1, 2), (1, 1)])
+            pens = [-1, -1, -1]
+            threads = rng.choice([2, 4, 8, 16])
+        todo.append(dict(kind=kind, a=a, b=b, t=t, pens=pens, ka=ka, kb=kb, bt=0 if kind == "protein" else 1, threads=threads))
     conv = []
     for d in todo:
         alph = 23 if d["kind"] == "protein" else 5
@@ -185,7 +194,7 @@ def run(ctx):
             continue
         recs = [("a%d" % i, d["a"]) for i in range(d["ka"])] + [("b%d" % i, d["b"]) for i in range(d["kb"])]
         # the detected kind must be the intended one, else the parameters are not the ones certified
-        c = Case(recs, d["t"], d["pens"][0], d["pens"][1], d["pens"][2], threads=rng.choice([1, 4]), fmt="fasta")
+        c = Case(recs, d["t"], d["pens"][0], d["pens"][1], d["pens"][2], threads=d["threads"], fmt="fasta")
         c.d = d
         cases.append(c)
     sysrun.run_cases(kvh, cases)
@@ -214,6 +223,8 @@ def run(ctx):
         ctx.count("certified_compared")
         ctx.count("len_%s" % ("ge500" if max(len(d["a"]), len(d["b"])) >= 500 else "lt500"))
         ctx.count("groups_%dx%d" % (d["ka"], d["kb"]))
+        if min(len(d["a"]), len(d["b"])) >= 500 and d["threads"] > 1:
+            ctx.count("parallel_controller_%dx%d" % (min(d["ka"], 2), min(d["kb"], 2)))
         if got != d["cols"]:
             fails.append(("kalign's alignment differs from the certified unique optimum (margin %.2f)" % d["cert"],
                           dict(case=c.describe(), expected_cols=d["cols"], got_cols=got, rows=[ra[0], rb[0]])))
